@@ -413,9 +413,9 @@ func init() {
 			"distinct_nontrivial = distinct (command option set, input size, max-cpu, batch-size, yield on/off, GOMAXPROCS) configurations compared with the reference on inputs of more than 2 records, plus linearizability histories",
 		Assume: []string{"metamorphic oracle: no model of the commands is needed, only equality with the reference configuration", "obicsv --auto is excluded (documented as based on the first batch)", "the annotation map exists before it is shared (as in every command)"},
 		Subs: []core.Sub{
-			{Name: "matrix", N: core.Const(nj*2, nj*5), Shard: 1, TimeoutS: 1800, Run: func(c *core.Ctx) { runMatrix(c, false) }},
+			{Name: "matrix", N: core.Const(nj*2, nj*12), Shard: 1, TimeoutS: 1800, Run: func(c *core.Ctx) { runMatrix(c, false) }},
 			{Name: "race", N: core.Const(nj, nj), Shard: 1, TimeoutS: 1800, Run: func(c *core.Ctx) { runMatrix(c, true) }},
-			{Name: "linearizable", N: core.Const(8, 32), Run: runLinearizable, Race: true, NRace: core.Const(4, 8)},
+			{Name: "linearizable", N: core.Const(8, 128), Run: runLinearizable, Race: true, NRace: core.Const(4, 8)},
 		},
 		Cmds:          bins,
 		RaceCmds:      bins,
